@@ -151,6 +151,7 @@ inline void register_theta() {
     ThetaState st = gen_theta(v, r, small);
     const std::string ctx = "variant=" + std::to_string(v) + " retained=" + std::to_string(st.sk.get_num_retained());
     const std::string b = write_theta(st, false), s = write_theta(st, true);
+    check_header_variants("theta", b, [&](unsigned h) { return st.compressed ? st.sk.serialize_compressed(h) : st.sk.serialize(h); }, ctx);
     decode_check_theta(st.sk, st.seed, b, ctx + " path=bytes", st.compressed);
     if (s != b) { count("theta_paths_differ"); decode_check_theta(st.sk, st.seed, s, ctx + " path=stream", st.compressed); }
     count("decoded_theta");
@@ -227,6 +228,7 @@ inline void register_tuple() {
     TupleState st = gen_tuple(v, r, small);
     const std::string ctx = "variant=" + std::to_string(v) + " retained=" + std::to_string(st.sk.get_num_retained());
     const std::string b = write_tuple(st.sk, false), s = write_tuple(st.sk, true);
+    check_header_variants("tuple", b, [&](unsigned h) { return st.sk.serialize(h); }, ctx);
     decode_check_tuple(st.sk, st.seed, b, ctx + " path=bytes");
     if (s != b) { count("tuple_paths_differ"); decode_check_tuple(st.sk, st.seed, s, ctx + " path=stream"); }
     count("decoded_tuple");
@@ -302,6 +304,7 @@ inline void register_aod() {
     AodState st = gen_aod(v, r, small);
     const std::string ctx = "variant=" + std::to_string(v) + " retained=" + std::to_string(st.sk.get_num_retained());
     const std::string b = write_aod(st.sk, false), s = write_aod(st.sk, true);
+    check_header_variants("aod", b, [&](unsigned h) { return st.sk.serialize(h); }, ctx);
     decode_check_aod(st.sk, st.seed, b, ctx + " path=bytes");
     if (s != b) { count("aod_paths_differ"); decode_check_aod(st.sk, st.seed, s, ctx + " path=stream"); }
     count("decoded_aod");
@@ -445,6 +448,8 @@ inline void register_hll() {
     if (big_set) count("hll_big_set_states");
     const std::string ctx = "variant=" + std::to_string(v) + " lg_k=" + std::to_string(st.lg_k) + " inputs=" + std::to_string(st.inputs.size()) + (st.compact ? " compact" : " updatable");
     const std::string b = write_hll(st.sk, st.compact, false), s = write_hll(st.sk, st.compact, true);
+    // (serialize_updatable() takes no header; the compact writer is checked for every state, whatever image kind the case decodes)
+    check_header_variants("hll", to_str(st.sk.serialize_compact()), [&](unsigned h) { return st.sk.serialize_compact(h); }, ctx);
     decode_check_hll(st, b, ctx + " path=bytes");
     if (s != b) { count("hll_paths_differ"); decode_check_hll(st, s, ctx + " path=stream"); }
     count("decoded_hll");
@@ -544,6 +549,7 @@ inline void register_cpc() {
     CpcState st = gen_cpc(v, r, small);
     const std::string ctx = "variant=" + std::to_string(v) + " lg_k=" + std::to_string(st.lg_k) + " inputs=" + std::to_string(st.inputs.size());
     const std::string b = write_cpc(st.sk, false), s = write_cpc(st.sk, true);
+    check_header_variants("cpc", b, [&](unsigned h) { return st.sk.serialize(h); }, ctx);
     decode_check_cpc(st, b, ctx + " path=bytes");
     if (s != b) { count("cpc_paths_differ"); decode_check_cpc(st, s, ctx + " path=stream"); }
     count("decoded_cpc");
@@ -578,6 +584,7 @@ inline void register_cpc_boundary() {
     CpcState st = gen_cpc_boundary(vv);
     const std::string ctx = "boundary variant=" + std::to_string(vv) + " lg_k=" + std::to_string(st.lg_k) + " coupons=" + std::to_string(st.sk.get_num_coupons());
     const std::string b = write_cpc(st.sk, false), s = write_cpc(st.sk, true);
+    check_header_variants("cpc", b, [&](unsigned h) { return st.sk.serialize(h); }, ctx);
     decode_check_cpc(st, b, ctx + " path=bytes");
     if (s != b) { count("cpc_paths_differ"); decode_check_cpc(st, s, ctx + " path=stream"); }
     if (4ULL * st.sk.get_num_coupons() == (3ULL << st.lg_k)) count("cpc_exactly_three_quarters_k");
